@@ -405,7 +405,7 @@ def precheck (t : ExternalTask) : Option TaskError :=
         else match assumptionError t t.progPrivate s with
         | some e => some e
         | none =>
-          if s.any fun f => !(f.role = .assumption || f.role = .spec || f.role = .definition)
+          if s.any fun f => !(f.role = .assumption || f.role = .spec)
           then some .specificationContainsUnsupportedRoles else none
 
 def externalProblems (t : ExternalTask) (fuel : Nat) : Outcome (List Problem) :=
